@@ -50,6 +50,7 @@ func Run(o *drv.Out) {
 		// reduced scenario for the binary built with -race (started by the thorough run, see race.go)
 		tappedCases(o, base)
 		concurrentSmallAndLarge(o, base)
+		interleavedTopicsFirstLarge(o, base)
 		rawCases(o, base)
 		return
 	}
@@ -59,6 +60,7 @@ func Run(o *drv.Out) {
 	o.Extra["c18_tapped_s"] = time.Since(t0).Seconds()
 	t0 = time.Now()
 	concurrentSmallAndLarge(o, base)
+	interleavedTopicsFirstLarge(o, base)
 	o.Extra["c18_interleave_s"] = time.Since(t0).Seconds()
 	t0 = time.Now()
 	rawCases(o, base)
@@ -311,7 +313,8 @@ func rawCases(o *drv.Out, base string) {
 		{{50, false, 1, 9}, {50, true, 2, 9}, {0, true, 3, 4}},                   // stream without inbox: dropped, stays open
 		{{7, true, 1, 3}, {98, true, 2, 3}, {5, true, 3, 3}},                     // edges of the phantom stream range
 		{{6, false, 1, 4}, {6, true, 2, 4}, {4, true, 3, 4}},                     // heartbeat topic with unknown payloads: ignored
-		{{0, false, 1, chunk}, {0, false, 2, chunk}, {0, true, 3, 17}},           // full-size packets
+		{{0, false, 1, chunk}, {0, false, 2, chunk}, {0, true, 3, 17}},
+		{{2, false, 1, chunk}, {4, true, 2, 50}, {5, false, 3, 7}, {2, true, 4, 9}, {5, true, 5, 1}}, // first message of a fresh stream is multi-packet, other topics in between           // full-size packets
 	}
 	n := 25
 	if o.Tier == "thorough" {
@@ -348,6 +351,8 @@ func rawCases(o *drv.Out, base string) {
 		}
 		closed := false
 		desc := ""
+		// reference (independent of the Lean model): what each stream must have assembled so far
+		ref := map[int][]byte{}
 		for _, p := range script {
 			op := fmt.Sprintf("pkt %d %d %d %d", p.t, b2i(p.eof), p.seed, p.n)
 			desc += op + "; "
@@ -358,10 +363,21 @@ func rawCases(o *drv.Out, base string) {
 			} else {
 				_ = r.sendPacket(int32(p.t), p.eof, Pattern(p.seed, p.n))
 				alive := r.barrier()
+				var whole []byte
+				if p.t != 6 && p.t < 99 {
+					ref[p.t] = append(ref[p.t], Pattern(p.seed, p.n)...)
+					if p.eof {
+						whole, ref[p.t] = ref[p.t], nil
+					}
+				}
 				var delivered []string
 				for t := 0; t < 7; t++ {
 					for _, m := range drainInbox(o, r.b, t, r.idM.PublicKey().Bytes(), desc) {
 						delivered = append(delivered, fmt.Sprintf("deliver %d %s", t, showMsg(m)))
+						// ORACLE: a delivered message is exactly the concatenation of the packets sent on ITS topic since that topic's last EOF
+						if t != p.t || !p.eof || showMsg(m) != showMsg(whole) {
+							o.Fail("C18:received-differs-from-sent:raw-packets", fmt.Sprintf("after %s: topic %d delivered %s, its packets add up to %s", op, t, showMsg(m), showMsg(whole)), desc)
+						}
 					}
 				}
 				switch {
